@@ -119,7 +119,16 @@ def norm_errors(errors):
 
 
 def jsonable(v):
-    return json.loads(json.dumps(v, default=str, sort_keys=True))
+    """A JSON-able, order-independent copy of `v` (dict keys become strings: csvpath
+    tracking dictionaries may mix int and str keys)."""
+    if isinstance(v, dict):
+        items = [(f"{k}", jsonable(x)) for k, x in v.items()]
+        return {k: x for k, x in sorted(items, key=lambda kv: kv[0])}
+    if isinstance(v, (list, tuple)):
+        return [jsonable(x) for x in v]
+    if isinstance(v, (str, int, float, bool)) or v is None:
+        return v
+    return f"{v}"
 
 
 def jsonable_plain(v):
